@@ -10,7 +10,7 @@ PROPS = {
     "C01": {
         "level": "exploration",
         "assumptions": [
-            "reflect.StructOf types stand in for anonymous struct types; named-type behaviour is covered by the committed catalogue (harness/cat) only",
+            "reflect.StructOf types stand in for anonymous struct types; named-type behaviour (named nested structs, embedding, unexported fields, defined slice/map/pointer/primitive types) is covered by the hand-written catalogue (harness/cat) and by a catalogue of 240 (thorough: 600) struct types generated as Go source from VERIF_SEED (harness/gencat) and compiled into the run, each through the real Encoder[T]",
             "dynamic types are encoded through the public pipeline NewEncoderFor itself uses (SchemaForType, Schema.Codec, FileWriter, Codec.Write); catalogue types through the real Encoder[T]",
             "equality is spec.Abs/Match: only the normalisations the property documents",
         ],
@@ -18,6 +18,7 @@ PROPS = {
             regress("C01"),
             {"run": "^TestC01$", "quick": 20000, "thorough": 200000},
             {"run": "^TestC01Repetitive$", "quick": 60, "thorough": 1000},
+            {"run": "^TestC01Named$", "quick": 5000, "thorough": 50000},
             {"fuzz": "FuzzC01", "fuzztime": "90s", "thorough_only": True, "run": "FuzzC01"},
         ],
     },
@@ -32,6 +33,7 @@ PROPS = {
             {"run": "^TestRefSelf$", "quick": 300, "thorough": 3000, "single": True},
             {"run": "^TestC02$", "quick": 20000, "thorough": 200000},
             {"run": "^TestC02Repetitive$", "quick": 60, "thorough": 1000},
+            {"run": "^TestC02Named$", "quick": 5000, "thorough": 50000},
             {"run": "^TestC02FileWriter$", "quick": 8000, "thorough": 80000},
             {"fuzz": "FuzzC02", "fuzztime": "60s", "thorough_only": True, "run": "FuzzC02"},
         ],
@@ -40,12 +42,13 @@ PROPS = {
         "level": "exploration",
         "assumptions": [
             "spec.ModelSchema is an independent statement of the documented mapping; for kinds the documentation does not mention (Go arrays, int8, unsigned, non-string map keys) only 'error or usable schema' is required",
-            "named-type behaviour (names, reuse, recursion, embedding, unexported fields, package path) is sampled by the committed catalogue, not generated",
+            "named-type behaviour: reuse, recursion and package path are sampled by the hand-written catalogue; names, embedding, unexported fields and defined non-struct types also by the catalogue generated from VERIF_SEED (harness/gencat), every type of which is checked",
         ],
         "units": [
             regress("C15"),
             {"run": "^TestC15Recursive$", "quick": 1, "thorough": 1, "single": True, "rapid": False},
             {"run": "^TestC15$", "quick": 30000, "thorough": 300000},
+            {"run": "^TestC15Named$", "quick": 1, "thorough": 1, "single": True, "rapid": False},
         ],
     },
     "C03": {
